@@ -224,7 +224,7 @@ type jop struct {
 }
 
 func propC10(run *Run, n int) {
-	run.rule = "p = RenderPatch(a.Diff(b)) rendered hunk by hunk, and subset-preserving variations (changed values in matching test/remove pairs, indices shifted consistently across a hunk, dropped hunks, dropped context tests, '-' append) and respell-token (a reference token respelled outside the RFC 6901 grammar: index N as 0N, +N, -N, 00N, 00; '-' as -1; a key with an invalid ~ escape; a member renamed — in patch and documents — to a number-like name 007, 01, -1, +1, -0 so that it reaches an object) x targets (a, b, perturbations); non-trivial = jd reads and applies the patch; distinct = distinct (patch text, target)"
+	run.rule = "p = RenderPatch(a.Diff(b)) rendered hunk by hunk, and subset-preserving variations (changed values in matching test/remove pairs, indices shifted consistently across a hunk, dropped hunks, dropped context tests, '-' append) and respell-token (a reference token respelled outside the RFC 6901 grammar: index N as 0N, +N, -N, 00N, 00; '-' as -1; a key with an invalid ~ escape; a member renamed — in patch and documents — to a number-like name 007, 01, -1, +1, -0 so that it reaches an object) and malformed-op (the patch DOCUMENT damaged: an op without value / path / op, member names in another letter case, an extra Value / PATH / Op member with another content next to the exact one, an exact member written twice, a non-object element, the texts null, {}, [null], [[]], \"x\") x targets (a, b, perturbations); non-trivial = jd reads and applies the patch; distinct = distinct (patch text, target)"
 	r := NewRng(run.Seed)
 	for i := 0; i < n; i++ {
 		cfg := DefaultCfg()
@@ -334,6 +334,210 @@ func propC10(run *Run, n int) {
 			}
 			addC10Case(run, kind, opsText(g3), t, a3, b3)
 		}
+		// malformed-op (D31): the patch DOCUMENT is damaged. RFC 6902 section 3: a JSON Patch document is an
+		// array of objects; section 4: each object has exactly one "op" and one "path" member (strings), and
+		// "add" / "test" have a "value" member. Member names are exact. jd must not apply such a text where the
+		// independent decoder rejects it, nor read another member than the exact one.
+		if r.Chance(1, 2) {
+			text, kind := malformedOp(r, groups)
+			t := a.Clone()
+			switch r.Intn(6) {
+			case 0:
+				t = b.Clone()
+			case 1:
+				t = perturb(r, cfg, a, b)
+			}
+			addC10Case(run, kind, text, t, a, b)
+		}
+	}
+}
+
+// jmember is one member of an operation object, in writing order (value = raw JSON text)
+type jmember struct{ k, v string }
+
+func opMembers(o jop) []jmember {
+	q := func(s string) string { b, _ := json.Marshal(s); return string(b) }
+	v := string(o.Value)
+	if v == "" {
+		v = "null"
+	}
+	return []jmember{{"op", q(o.Op)}, {"path", q(o.Path)}, {"value", v}}
+}
+
+func membersText(ms []jmember) string {
+	parts := []string{}
+	for _, m := range ms {
+		kb, _ := json.Marshal(m.k)
+		parts = append(parts, string(kb)+":"+m.v)
+	}
+	return "{" + strings.Join(parts, ",") + "}"
+}
+
+// malformedOp damages the rendered patch as a DOCUMENT (D31): one operation loses its `value` (add, test) or
+// its `path`; its member names are written in another letter case (OP, Path, VALUE — all or one of them); it
+// gets an extra `Value` / `PATH` / `Op` member with a DIFFERENT content next to the exact one (before or
+// after it); an exact member is written twice with different contents (the last one counts, for jd as for
+// the independent parser); an element of the array is replaced by / preceded by a string, null, an array;
+// or the whole text is `null`, `{}`, `[null]`, `[[]]`, `"x"`.
+func malformedOp(r *Rng, groups [][]jop) (string, string) {
+	all := flatOps(groups)
+	whole := []struct{ kind, text string }{
+		{"doc-null", "null"}, {"doc-object", "{}"}, {"doc-null-element", "[null]"},
+		{"doc-array-element", "[[]]"}, {"doc-string", `"x"`},
+	}
+	if len(all) == 0 || r.Chance(1, 8) {
+		w := whole[r.Intn(len(whole))]
+		text := w.text
+		if r.Chance(1, 3) {
+			text = " " + text + "\n"
+		}
+		return text, "malformed-op:" + w.kind
+	}
+	elems := make([]string, len(all))
+	for i, o := range all {
+		elems[i] = membersText(opMembers(o))
+	}
+	join := func() string { return "[" + strings.Join(elems, ",") + "]" }
+	pick := func(ops ...string) int {
+		cand := []int{}
+		for i, o := range all {
+			for _, x := range ops {
+				if o.Op == x {
+					cand = append(cand, i)
+				}
+			}
+		}
+		if len(cand) == 0 {
+			return r.Intn(len(all))
+		}
+		return cand[r.Intn(len(cand))]
+	}
+	drop := func(ms []jmember, k string) []jmember {
+		out := []jmember{}
+		for _, m := range ms {
+			if m.k != k {
+				out = append(out, m)
+			}
+		}
+		return out
+	}
+	other := func(k, v string) string {
+		switch k {
+		case "op":
+			if v == `"add"` {
+				return `"remove"`
+			}
+			return `"add"`
+		case "path":
+			var p string
+			json.Unmarshal([]byte(v), &p)
+			b, _ := json.Marshal(p + "/d31")
+			return string(b)
+		}
+		if v == `"d31"` {
+			return "0"
+		}
+		return `"d31"`
+	}
+	upper := map[string][]string{"op": {"OP", "Op", "oP"}, "path": {"PATH", "Path", "pAth"}, "value": {"VALUE", "Value", "valuE"}}
+	switch r.Intn(8) {
+	case 0:
+		i := pick("add", "test")
+		elems[i] = membersText(drop(opMembers(all[i]), "value"))
+		return join(), "malformed-op:no-value-" + all[i].Op
+	case 1:
+		i := pick("add", "add", "test", "remove")
+		elems[i] = membersText(drop(opMembers(all[i]), "path"))
+		return join(), "malformed-op:no-path"
+	case 2:
+		i := r.Intn(len(all))
+		elems[i] = membersText(drop(opMembers(all[i]), "op"))
+		return join(), "malformed-op:no-op"
+	case 3:
+		// other letter case: all three names, or one of them, in one op or in every op
+		ks := []string{"op", "path", "value"}
+		if r.Chance(1, 2) {
+			ks = []string{ks[r.Intn(3)]}
+		}
+		is := []int{pick("add")}
+		if r.Chance(1, 2) {
+			is = nil
+			for i := range all {
+				is = append(is, i)
+			}
+		}
+		for _, i := range is {
+			ms := opMembers(all[i])
+			for j := range ms {
+				for _, k := range ks {
+					if ms[j].k == k {
+						ms[j].k = upper[k][r.Intn(3)]
+					}
+				}
+			}
+			elems[i] = membersText(ms)
+		}
+		kind := "malformed-op:other-case-all"
+		if len(ks) == 1 {
+			kind = "malformed-op:other-case-" + ks[0]
+		}
+		return join(), kind
+	case 4, 5:
+		// an extra member whose name differs from the exact one in letter case only, with another content
+		i := pick("add", "add", "test", "remove")
+		k := []string{"value", "value", "path", "op"}[r.Intn(4)]
+		ms := opMembers(all[i])
+		out := []jmember{}
+		after := r.Chance(2, 3)
+		for _, m := range ms {
+			x := jmember{upper[k][r.Intn(3)], other(k, m.v)}
+			if m.k == k && !after {
+				out = append(out, x)
+			}
+			out = append(out, m)
+			if m.k == k && after {
+				out = append(out, x)
+			}
+		}
+		elems[i] = membersText(out)
+		pos := "before"
+		if after {
+			pos = "after"
+		}
+		return join(), "malformed-op:extra-case-" + k + "-" + pos
+	case 6:
+		// the exact member twice, with different contents: the last one counts
+		i := pick("add", "add", "test", "remove")
+		k := []string{"value", "path", "op"}[r.Intn(3)]
+		ms := opMembers(all[i])
+		out := []jmember{}
+		first := r.Chance(1, 2)
+		for _, m := range ms {
+			x := jmember{k, other(k, m.v)}
+			if m.k == k && first {
+				out = append(out, x)
+			}
+			out = append(out, m)
+			if m.k == k && !first {
+				out = append(out, x)
+			}
+		}
+		elems[i] = membersText(out)
+		if first {
+			return join(), "malformed-op:duplicate-" + k + "-original-last"
+		}
+		return join(), "malformed-op:duplicate-" + k + "-original-first"
+	default:
+		// an element that is not an object
+		junk := []struct{ kind, text string }{{"string-element", `"x"`}, {"null-element", "null"}, {"array-element", "[]"}, {"number-element", "1"}}
+		j := junk[r.Intn(len(junk))]
+		i := r.Intn(len(all) + 1)
+		if i < len(all) && r.Chance(1, 2) {
+			elems[i] = j.text
+		} else {
+			elems = append(elems[:i], append([]string{j.text}, elems[i:]...)...)
+		}
+		return join(), "malformed-op:" + j.kind
 	}
 }
 
